@@ -317,6 +317,29 @@ Check C13_cli_report_spec : forall count spans n rep,
      (Forall lwf raw -> StronglySorted lt (fst rep))).
 Print Assumptions C13_cli_report_spec.
 
+(* VecExt::remove_indices REQUIRES strictly increasing indices (C13_remove_indices_spec's premise is StronglySorted lt; C13_sweep_queue_sorted provides exactly that): with a repeated index it stalls and ignores every later index *)
+Theorem C13_remove_indices_needs_strict : StronglySorted le [1; 1; 2] /\ ~ StronglySorted lt [1; 1; 2] /\
+  remove_indices 0 [1; 1; 2] [10; 11; 12] = [10; 12] /\ filter_idx 0 [1; 1; 2] [10; 11; 12] = [10].
+Proof. exact remove_indices_needs_strict. Qed.
+Check C13_remove_indices_needs_strict : StronglySorted le [1; 1; 2] /\ ~ StronglySorted lt [1; 1; 2] /\
+  remove_indices 0 [1; 1; 2] [10; 11; 12] = [10; 12] /\ filter_idx 0 [1; 1; 2] [10; 11; 12] = [10].
+Print Assumptions C13_remove_indices_needs_strict.
+
+(* hence remove_overlaps removes exactly the positions its sweep names, on every input — exactly equal lints included *)
+Theorem C13_ro_is_filter_idx : forall ls, 2 <= length ls ->
+  remove_overlaps ls = filter_idx 0 (sweep 0 0 (lsort ls)) (lsort ls).
+Proof. exact ro_is_filter_idx. Qed.
+Check C13_ro_is_filter_idx : forall ls, 2 <= length ls ->
+  remove_overlaps ls = filter_idx 0 (sweep 0 0 (lsort ls)) (lsort ls).
+Print Assumptions C13_ro_is_filter_idx.
+
+Example C13_exact_duplicates :
+  let a := mklint (mkspan 10 20) 7 in let b := mklint (mkspan 12 15) 8 in
+  remove_overlaps [a; a; b] = [a] /\ remove_overlaps [b; a; a; a] = [a] /\
+  sweep 0 0 (lsort [a; a; b]) = [1; 2] /\
+  (let z := mklint (mkspan 5 5) 9 in remove_overlaps [z; z; a] = [z; z; a]).
+Proof. exact exact_duplicates_example. Qed.
+
 Example C13_maximal_nonvacuous :
   let ls := [mklint (mkspan 0 4) 0; mklint (mkspan 3 6) 1; mklint (mkspan 4 5) 2] in
   let d := mklint (mkspan 3 6) 1 in
